@@ -340,6 +340,42 @@ func runC01(c *core.Ctx) {
 		bounds = append(bounds, fmt.Sprintf("G-syn: every tree of size <=%d whose break/continue/return are placed in their construct, evaluated with a=3, b=[1,2] bound", maxSize))
 	}
 	c.P.States = c.P.Traces
+	if ok {
+		// the error that comes out of a construct is the error its operand raised (the reference evaluator propagates
+		// the error object itself; its general comparison declines once a message is observed, so this family has its own
+		// oracle: the message caught around the construct is the one given to error())
+		ctxs := []string{"[1, 2][%s:]", "[1, 2][0:%s]", "[1, 2][%s]", "{1: 2}[%s]", "\"ab\"[%s]", "if %s { 1 }", "for %s { 1 }", "for x = %s { 1 }", "-%s", "!%s", "%s + 1", "1 + %s", "1 < %s", "%s == 1", "true && %s", "false || %s",
+			"[%s]", "[1, %s]", "{%s: 1}", "{1: %s}", "h(%s)", "h(1, %s)", "len(%s)", "first(%s)", "rest(%s)", "str(%s)", "max(1, %s)", "sprintf(\"%%v\", %s)", "println(%s)", "print(1, %s)", "x = %s", "m = {}; m[%s] = 1", "m = {}; m[1] = %s", "m = {}; m.k = %s",
+			"a = [1]; a[0] = %s", "a = [1]; a[%s] = 1", "del(m[%s])", "(x => x)(%s)", "return %s", "func() { return %s }()", "func() { %s; 1 }()", "[1, 2][0:1][%s]", "{\"k\": [%s]}", "((%s))", "1:%s", "%s:2", "json(%s)", "keys(%s)", "eval(\"1\") + %s"}
+		n := 0
+		for _, cx := range ctxs {
+			for _, scope := range []string{"%s", "func() { %s }()", "for 1 { %s }"} {
+				n++
+				body := strings.ReplaceAll(strings.ReplaceAll(cx, "%%", "%"), "%s", "error(\"MARK7\")")
+				src := "h = func(..) { 1 }; m = {}; println(catch(" + strings.Replace(scope, "%s", "func() { "+body+" }()", 1) + ").value)"
+				if !c.Mine("errid", src) {
+					continue
+				}
+				cs := core.Case{Kind: "errid", Data: src}
+				c.Current(cs)
+				v := c.Run(func() *core.Viol {
+					for _, cfg := range []sessCfg{{noReg: true, cacheOff: true}, {}} {
+						r := runProgram(cfg, src)
+						if r.panicked || len(r.errs) > 0 || r.out != "MARK7\n" {
+							return &core.Viol{Class: "error-not-the-one-raised", Detail: fmt.Sprintf("cfg %+v: %s", cfg, r), Case: cs}
+						}
+					}
+					return nil
+				})
+				o := "same"
+				if v != nil {
+					o = v.Class
+				}
+				c.CountNT("errid: "+src, o, true)
+			}
+		}
+		bounds = append(bounds, fmt.Sprintf("error identity: %d constructs x 3 scopes whose operand raises error(\"MARK7\"): the message caught around the construct is MARK7", len(ctxs)))
+	}
 	c.P.Bound = strings.Join(bounds, "; ") + "; each in the plain (no registers, cache off) and default configuration"
 }
 
